@@ -180,15 +180,25 @@ class System(BigSMILESbase):
         if not self.generable:
             raise RuntimeError("Generable system required")
 
-        relative_fractions = [mol.mixture.relative_mass for mol in self._molecules]
+        relative_fractions = np.asarray(
+            [mol.mixture.relative_mass for mol in self._molecules], dtype=float
+        )
+        # The mixture specifies *mass* fractions: pick the next molecule by the mass
+        # each component is still missing, not by the number of molecules.
+        target_mass = relative_fractions / 100.0 * self.system_mass
+        generated_mass = np.zeros(len(self._molecules))
         generated_total_mass = 0
         while generated_total_mass < self.system_mass:
+            missing_mass = np.clip(target_mass - generated_mass, 0.0, None)
+            if np.sum(missing_mass) <= 0:
+                missing_mass = relative_fractions
             mol_idx = rng.choice(
-                range(len(relative_fractions)), p=relative_fractions / np.sum(relative_fractions)
+                range(len(relative_fractions)), p=missing_mass / np.sum(missing_mass)
             )
             mol = self._molecules[mol_idx]
             mol_gen = mol.generate(rng=rng)
             generated_total_mass += mol_gen.weight
+            generated_mass[mol_idx] += mol_gen.weight
             if not mol_gen.fully_generated:
                 raise RuntimeError("We expect a fully generated molecule here.")
             yield mol_gen
